@@ -4081,6 +4081,7 @@ func ruleJ6(c *Ctx) {
 		// the fallback: encoding/json.Unmarshal, reached on the false edge of the flag
 		var flag ssa.Value
 		var um *ssa.Call
+		var scanFn *ssa.Function
 		eachInstr(fn, func(in ssa.Instruction) {
 			call, ok := in.(*ssa.Call)
 			if !ok || in.Parent() != fn {
@@ -4089,15 +4090,35 @@ func ruleJ6(c *Ctx) {
 			if cal := call.Call.StaticCallee(); cal != nil && cal.String() == "encoding/json.Unmarshal" {
 				for _, pc := range pathConds(call.Block()) {
 					cond, neg := stripNot(pc.If.Cond)
-					if _, isPhi := cond.(*ssa.Phi); isPhi && pc.Branch == neg {
-						flag = cond
-						um = call
+					if pc.Branch != neg {
+						continue
+					}
+					switch x := cond.(type) {
+					case *ssa.Phi:
+						flag, um = cond, call
+					case *ssa.Extract:
+						// the scan lives in a helper: end, safe, closed := scanString(s, i)
+						if hc, ok := x.Tuple.(*ssa.Call); ok {
+							if g := hc.Call.StaticCallee(); g != nil && g.Blocks != nil && relPkg(fnPkgPath(g)) == "lib/json" {
+								eachInstr(g, func(in2 ssa.Instruction) {
+									if ret, ok := in2.(*ssa.Return); ok && x.Index < len(ret.Results) {
+										if _, isPhi := ret.Results[x.Index].(*ssa.Phi); isPhi {
+											flag, um = ret.Results[x.Index], call
+											scanFn = g
+										}
+									}
+								})
+							}
+						}
 					}
 				}
 			}
 		})
 		if flag == nil {
 			continue
+		}
+		if scanFn != nil {
+			fn = scanFn
 		}
 		n++
 		key := fnName(fn) + ": string scan classification"
@@ -4678,7 +4699,7 @@ func ruleZ6(c *Ctx) {
 // ---------- Q7: isFinite classifies the extreme finite values as finite ----------
 
 func init() {
-	register("Q7", "every finite float is finite: each helper that decides whether a float64 is finite (isFinite in the value package and in lib/json) is evaluated - by interpreting its SSA, not by running it - on one representative of every region its comparisons delimit (0, +-1, +-MaxFloat64, +-Inf, NaN) and must answer true exactly for the non-infinite, non-NaN ones; an off-by-one-ulp bound (< instead of <=) would print the largest finite float as nan", 2, ruleQ7)
+	register("Q7", "every finite float is finite: each helper that decides whether a float64 is finite (isFinite in the value package and in lib/json) is evaluated - by interpreting its SSA, not by running it - on one representative of every region its comparisons delimit (0, +-1, +-MaxFloat64, +-Inf, NaN) and must answer true exactly for the non-infinite, non-NaN ones; an off-by-one-ulp bound (< instead of <=) would print the largest finite float as nan", 1, ruleQ7)
 	claim("C15", "Q7")
 	claim("C18", "Q7")
 }
@@ -4722,8 +4743,8 @@ func ruleQ7(c *Ctx) {
 			c.ok(key, c.P.Pos(fn.Pos()), fmt.Sprintf("correct on all %d representatives (0, -0, +-1, denormal, +-MaxFloat64, +-Inf, NaN)", len(reps)))
 		}
 	}
-	if n < 2 {
-		c.anchorFail("only %d isFinite helper(s) found", n)
+	if n < 1 {
+		c.anchorFail("no isFinite helper found")
 	}
 }
 
